@@ -65,7 +65,8 @@ class C09(PropBase):
         ops.append({'op': 'layer', 'i': 0, 'addr': a, 'params': params})
         cap = (7 - pre) if txdl == 8 else (txdl - 2 - pre)
         rid = 0
-        for n in sorted(set([1, cap - 1, cap, cap + 1, cap + 2, 7 - pre, 8 - pre, rng.randrange(1, 70)])):
+        big = [rng.choice([4095, 4096, 4097, 70000])] if rng.random() < 0.4 else []     # 4096+: First Frame with the 32-bit length escape
+        for n in sorted(set([1, cap - 1, cap, cap + 1, cap + 2, 7 - pre, 8 - pre, rng.randrange(1, 70)] + big)):
             if n < 1:
                 continue
             for tat in (1, 0):
@@ -78,7 +79,7 @@ class C09(PropBase):
         h2 = gen.rand_half(rng)
         asym = {'asym': True, 'tx': dict(h['tx']), 'rx': dict(h2['rx'])}
         ops.append({'op': 'layer', 'i': 1, 'addr': asym, 'params': params})
-        for n in sorted(set([1, cap - 1, cap, cap + 1, 7 - pre, 8 - pre])):
+        for n in sorted(set([1, cap - 1, cap, cap + 1, 7 - pre, 8 - pre] + big)):
             if n < 1:
                 continue
             for tat in (1, 0):
